@@ -122,6 +122,34 @@ def history_property(cfg):
     return None
 
 
+RAW_DOCS = ["<script>alert(1)</script>\n", "hello <img src=x onerror=\"alert(1)\"> world\n", "<div>\n*x*\n</div>\n\n<!-- c --> <b>t</b>\n"]
+
+
+def preset_property():
+    """The html-off presets stay html-off whatever other instances were built before in the same process: an instance made from
+    the bare preset name after one made with an options_update (html switched on there) is the documented configuration."""
+    from markdown_it import MarkdownIt
+    for preset in ("js-default", "zero", "default"):
+        try:
+            first = MarkdownIt(preset, {"html": True, "xhtmlOut": True, "breaks": True})
+            first.render(RAW_DOCS[0])
+            md = MarkdownIt(preset)
+            if preset == "zero":
+                md.enable(["html_inline", "html_block"])
+        except Exception:  # noqa: BLE001
+            continue
+        for src in RAW_DOCS:
+            try:
+                out = guarded(md.render, src)
+            except Exception:  # noqa: BLE001
+                continue
+            bad = htmlcheck.check(out)
+            if bad:
+                return {"history": f"MarkdownIt({preset!r}, {{'html': True, ...}}) built and used, then MarkdownIt({preset!r}) built bare",
+                        "src": src, "problem": bad, "html": out[:400], "options.html of the bare instance": bool(md.options.get("html"))}
+    return None
+
+
 def run(ctx) -> int:
     rep: Reporter = ctx["rep"]
     tier, seed, proofs = ctx["tier"], ctx["seed"], ctx["proofs"]
@@ -139,6 +167,11 @@ def run(ctx) -> int:
         if d:
             direct = {"config": hcfg, **d}
             break
+    if direct is None:
+        n_dir += 1
+        d = preset_property()
+        if d:
+            direct = {"config": {"preset": "as named in the history"}, **d}
     for k in range(n):
         cfg = html_off_config(rng)
         if k % 5 == 0:   # html switched off after construction / rules enabled on an html-off preset
@@ -268,6 +301,10 @@ def replay_history(body) -> int:
 
 
 def replay(body) -> int:
+    if str(body.get("history", "")).startswith("MarkdownIt("):
+        d = preset_property()
+        print("C04 for a bare preset after another instance:", "VIOLATED " + json.dumps(d, default=str)[:1200] if d else "holds")
+        return 1 if d else 0
     if "history" in body and "config" in body:
         return replay_history(body)
     if "config" in body and "src" in body:
